@@ -33,7 +33,7 @@ impl Monitor for Nop {
 fn seed_replies(cfg: &Cfg) -> Vec<Reply> {
     let fp = if cfg.fingerprint { RFp::Valid } else { RFp::Absent };
     let ok = Reply::plain(RClass::Success).with_fp(fp);
-    let c = |realm, nonce, pas| Chal { realm, nonce, pas };
+    let c = |realm, nonce, pas| Chal { realm, nonce, pas, realm_v: 0 };
     match cfg.mech {
         Mech::None => vec![ok, Reply::plain(RClass::Error(400)).with_fp(fp), Reply::plain(RClass::Indication).with_fp(fp), ok.with_mac(RMac::Mi)],
         Mech::ShortTerm(_) => vec![
@@ -90,6 +90,7 @@ pub fn run(ctx: &RunCtx, rep: &mut Report) {
     }
     let work: Vec<(usize, usize)> = (0..states.len()).flat_map(|s| [1usize, 2].into_iter().map(move |o| (s, o))).collect();
     let shared = Shared::new();
+    let shared2 = Shared::new();
     work.par_iter().for_each(|(si, outstanding)| {
         let (name, cfg, prefix) = &states[*si];
         let mut r = Report::new();
@@ -150,6 +151,47 @@ pub fn run(ctx: &RunCtx, rep: &mut Report) {
         }
         shared.merge(r);
     });
+    // long replies: a success response for the outstanding id with a filler of every size of menu::offset_points in
+    // front of a valid FINGERPRINT / integrity tail (keyed as the server would), and the same with the last byte flipped
+    states.par_iter().for_each(|(name, cfg, prefix)| {
+        let mut r = Report::new();
+        let mut run = fresh_world(cfg, &apps, prefix, 1);
+        for (ix, f) in crate::menu::offset_points(thorough).into_iter().enumerate() {
+            for tail in [vec![L::Fp], vec![L::Mi, L::Fp], vec![L::Sha]] {
+                if run.w.dead.is_some() || run.w.awaiting().is_empty() {
+                    run = fresh_world(cfg, &apps, prefix, 1);
+                }
+                let Some(i) = run.w.awaiting().last().copied() else { break };
+                let (id, first) = (run.w.reqs[i].id, run.w.reqs[i].first.clone());
+                let key = super::server::reply_key(&run.w, Some(&first), false);
+                let mut attrs = crate::menu::filler(f, ix % 2 == 1);
+                attrs.extend(tail.iter().cloned());
+                if crate::menu::body_size(&attrs, &id) > 65_532 {
+                    continue;
+                }
+                let good = crate::refs::codec::ref_encode(&crate::menu::lmsg(1, 2, id, attrs), Some(&key));
+                let mut bad = good.clone();
+                let n = bad.len();
+                bad[n - 1] ^= 0x80;
+                for (bytes, class) in [(bad, "long-reply-last-byte-flipped"), (good, "long-reply")] {
+                    r.eval();
+                    r.transitions += 1;
+                    let obs = run.w.recv(&bytes);
+                    if let CallRes::Panic(p) = &obs.res {
+                        r.violate(
+                            format!("client-panics/{}/{}", crate::util::panic_site(p), class),
+                            format!("{} in state {} (filler of {} body bytes)", p, name, f),
+                            json!({"kind": "client-bytes", "state": name, "config": cfg.show(), "outstanding": 1, "seed_reply": format!("filler {} + {:?}", f, tail), "fault": class, "bytes": hex(&bytes)}),
+                        );
+                        run = fresh_world(cfg, &apps, prefix, 1);
+                        break;
+                    }
+                }
+                r.sym("client-long-replies");
+            }
+        }
+        shared2.merge(r);
+    });
     let part = shared.into_inner();
     let (acc, rej, n) = (
         part.extra.get("client_mutants_accepted").and_then(|x| x.as_u64()).unwrap_or(0),
@@ -157,6 +199,7 @@ pub fn run(ctx: &RunCtx, rep: &mut Report) {
         part.transitions,
     );
     rep.merge(part);
+    rep.merge(shared2.into_inner());
     rep.transitions = 0;
     rep.extra.insert(
         "client".into(),
